@@ -1,5 +1,5 @@
 //! C06 — peer stream decoding is total, segmentation-independent and bounded.
-//! E-SEG: every stream of <= k messages from a 16-symbol alphabet (valid, unknown-id, malformed,
+//! E-SEG: every stream of <= k messages from a 20-symbol alphabet (valid, unknown-id, malformed,
 //! oversized) x every segmentation into reads (all 2^(n-1) for short streams, all subsets of <= 3
 //! cuts from a cut-point set otherwise) x {more data may follow, EOF}, against the real
 //! `Connection::recv_frame` polled by hand; oracle = reference stream decoder (refwire.rs).
@@ -46,6 +46,11 @@ pub fn alphabet() -> Vec<(&'static str, Vec<u8>)> {
         ("BAD:Oversize", vec![0, 1, 0, 1, 7, 1, 2, 3]),
         ("BAD:Pstr", bad_hs),
         ("BAD:Pstr5", bad_hs2),
+        // variable-length kinds with a length prefix below their fixed part, fixed kinds one off
+        ("BAD:PieceLen8", vec![0, 0, 0, 8, 7, 0, 0, 0, 0, 0, 0, 0]),
+        ("BAD:PieceLen1", vec![0, 0, 0, 1, 7]),
+        ("BAD:RequestLen12", vec![0, 0, 0, 12, 6, 0, 0, 0, 1, 0, 0, 0, 2, 0, 0, 0]),
+        ("BAD:CancelLen14", vec![0, 0, 0, 14, 8, 0, 0, 0, 1, 0, 0, 0, 2, 0, 0, 0, 3, 9]),
     ]
 }
 
